@@ -40,7 +40,7 @@ for _bits in (8, 16, 24, 32, 64):
 
 UNMODELLED_CTORS = {
     "Pointer", "Peek", "Const", "Switch", "If", "IfThenElse", "Optional", "GreedyRange",
-    "RepeatUntil", "Prefixed", "PrefixedArray", "NullTerminated", "GreedyBytes",
+    "RepeatUntil", "Prefixed", "PrefixedArray", "NullTerminated",
     "GreedyString", "CString", "PascalString", "Union", "Select", "LazyStruct", "Rebuild",
     "Default", "Check", "StopIf", "Terminated", "Aligned", "AlignedStruct", "BitStruct",
     "Bitwise", "FocusedSeq", "Sequence", "Lazy", "RestreamData",
@@ -512,6 +512,8 @@ class LayoutEval:
                 return This()
             if n == "Tell":
                 return Con("tell", size=lift(0))
+            if n == "GreedyBytes":
+                return Con("greedybytes")
             if n in ("Byte",):
                 return Con("int", size=lift(1), name="Int8ub")
             if n in ("Short", "Int", "Long"):
@@ -598,7 +600,16 @@ class LayoutEval:
             if f[0] == "dictget":
                 return f[1].get(args[0], args[1] if len(args) > 1 else None)
             if f[0] == "ctor_unmodelled":
-                raise UnmodelledConstruct(f[1], mod.name)
+                ex = UnmodelledConstruct(f[1], mod.name)
+                if f[1] == "Pointer" and args:
+                    off = args[0]
+                    try:
+                        off = self.num(off)
+                        off = off.value() if off.is_const() else None
+                    except AnalysisError:
+                        off = None
+                    ex.from_end = isinstance(off, (int, float)) and off < 0
+                raise ex
             if f[0] == "builtin" and f[1] in ("max", "min"):
                 vals = args[0] if len(args) == 1 and isinstance(args[0], list) else args
                 if all(isinstance(x, (int, float)) and not isinstance(x, bool) for x in vals):
@@ -725,10 +736,31 @@ class LayoutEval:
         if n == "Renamed":
             return Con("renamed", name=args[1], sub=self.as_con(args[0], node), node=node, mod=None)
         if n == "FixedSized":
-            return Con("fixedsized", size=self.lazy_num(args[0]), sub=self.as_con(args[1], node), node=node)
+            size = self.lazy_num(args[0])
+            return Con("fixedsized", size=size, sub=self._fill_greedy(self.as_con(args[1], node), size), node=node)
+        if n == "NullStripped":
+            pad = kwargs.get("pad", args[1] if len(args) > 1 else b"\x00")
+            if not isinstance(pad, bytes):
+                raise AnalysisError(f"NullStripped(pad={pad!r}): pad is not a bytes literal")
+            return Con("wrapper", cls="NullStripped", args={"pad": pad}, sub=self.as_con(args[0], node), node=node)
+        if n == "StringEncoded":
+            enc = kwargs.get("encoding", args[1] if len(args) > 1 else None)
+            if not isinstance(enc, str):
+                raise AnalysisError(f"StringEncoded(encoding={enc!r}): encoding is not a string literal")
+            return Con("wrapper", cls="StringEncoded", args={"encoding": enc}, sub=self.as_con(args[0], node), node=node)
         if n == "BytesInteger":
             return Con("int", size=self.num(args[0]), name=f"BytesInteger{args[0]}")
         raise AnalysisError(f"construct.{n} is outside the modelled fragment")
+
+    def _fill_greedy(self, con, size):
+        """inside a fixed-size window `GreedyBytes` takes the whole window: written as Bytes(size), under the same wrappers"""
+        if con.kind == "greedybytes":
+            return Con("bytes", size=size)
+        if con.kind == "wrapper":
+            return Con("wrapper", cls=con.cls, args=con.args, sub=self._fill_greedy(con.sub, size), node=con.node)
+        if con.kind == "adapter":
+            return Con("adapter", cls=con.cls, clsmod=con.clsmod, clsnode=con.clsnode, sub=self._fill_greedy(con.sub, size), attrs=con.attrs, node=con.node)
+        return con
 
     # ------------------------------------------------------- adapter classes
     def find_method(self, mod, cls, name, _depth=0):
@@ -894,6 +926,12 @@ class LayoutEval:
         if k == "enum":
             chain.append({"kind": "Enum", "cls": "Enum", "mapping": dict(c.mapping)})
             return self.walk(c.sub, pos, ctx, out, values, strides, path, chain)
+        if k == "wrapper":
+            # construct's own value wrappers (no effect on sizes): part of how the bytes become a value
+            chain.append({"kind": "wrapper", "cls": c.cls, "clsmod": "construct", "args": dict(c.args), "attrs": {k_: repr(v_) for k_, v_ in c.args.items()}})
+            return self.walk(c.sub, pos, ctx, out, values, strides, path, chain)
+        if k == "greedybytes":
+            raise AnalysisError(f"{'.'.join(_strip(path))}: GreedyBytes outside a FixedSized window: the field takes the rest of the stream; not modelled")
         name = ".".join(_strip(path))
         if k == "struct":
             start = pos
@@ -1018,6 +1056,9 @@ def leaf_value_kind(leaf, adapter_kinds):
     for a in reversed(leaf.chain):
         if a["kind"] == "Enum":
             kind = "enum"
+            continue
+        if a["kind"] == "wrapper":
+            kind = "str" if a["cls"] == "StringEncoded" else kind
             continue
         f = adapter_kinds.get((a["clsmod"], a["cls"]))
         if f is None:
